@@ -103,7 +103,9 @@ def build(case):
     for i in case["nans"]:
         d[i] = np.nan
     d = d.reshape(shape)
-    if not case["nans"] and case["wseed"] % 4 == 0:
+    if not case["nans"] and case["wseed"] % 8 == 4:
+        d = (d * 60).astype(np.uint8)           # detector counts in a narrow dtype: a block's sum does not fit in it
+    elif not case["nans"] and case["wseed"] % 4 == 0:
         d = d.astype(np.int64)                  # integer data (the values are small integers anyway)
     mk = case["mask"]
     mask = {"none": None, "false": False, "true": True}.get(mk, "arr")
@@ -159,7 +161,7 @@ def run(case):
              [bool(x) for x in np.asarray(C.materialize(mask)).ravel()])
     if form != "badunit":
         res["model_req"] = {"op": "rebin", "shape": list(shape),
-                            "data": ["nan" if i in set(case["nans"]) else case["data"][i] for i in range(len(case["data"]))],
+                            "data": ["nan" if i in set(case["nans"]) else frac(float(np.asarray(d).ravel()[i])) for i in range(len(case["data"]))],
                             "mask": mjson, "binShape": [frac(b) for b in bins], "operation": case["op"],
                             "ignoresMask": case["ignores"], "handleMask": case["handle"]}
     else:
